@@ -358,7 +358,21 @@ func (x *Exec) evalAddrOf(st *State, e *ast.UnaryExpr) *Value {
 			}
 			if gv, ok := obj.(*types.Var); ok && gv.Parent() == x.eng.pkg.Types.Scope() {
 				// address of a package-level variable: no read of the variable itself
-				return scalarV(t, x.b.Var("globaladdr."+inner.Name, RefSort))
+				ga := x.b.Var("globaladdr."+inner.Name, RefSort)
+				if x.eng.isNeverAssigned(gv) && kindOf(gv.Type()) != kStruct {
+					// a variable that is never assigned: the cell behind its address holds its
+					// (initial) value - assuming nobody writes through such a pointer
+					cell := x.loadCell(st, ga, gv.Type())
+					val := x.globalVar(st, gv)
+					if val.L != nil {
+						for p, tm := range val.L {
+							if ct, ok := cell.L[p]; ok && ct.Sort == tm.Sort {
+								x.assume(st, x.b.Eq(ct, tm))
+							}
+						}
+					}
+				}
+				return scalarV(t, ga)
 			}
 			// not yet materialised (parameter or variable defined before the
 			// engine saw it): move it to the heap now
